@@ -26,3 +26,34 @@ Definition resolve (ours : bool) (t : table) (conf : list conflict_entry) : tabl
 (* state of the table after dolt_conflicts_resolve: rows and (cleared) conflicts *)
 Definition resolve_state (ours : bool) (t : table) (conf : list conflict_entry) : table * list conflict_entry :=
   (resolve ours t conf, []).
+
+(* ---- secondary index maintenance during resolve --theirs (resolveProllyConflicts, the loop over
+   mutIdxs): ourRow is read from the table as it was before the resolve; absent ours => InsertEntry
+   (their row), absent theirs => DeleteEntry (our row), else UpdateEntry (delete ours, insert theirs).
+   An index on non-key column number ci is modelled by its entry set (indexed value, key). ---- *)
+Definition ientry := (cell * N)%type.
+Definition ival (ci : nat) (r : row) : cell := nth ci r None.
+Definition ientry_eqb (a b : ientry) : bool := cell_eqb (fst a) (fst b) && (snd a =? snd b).
+Definition imem (v : cell) (k : N) (idx : list ientry) : bool := existsb (ientry_eqb (v, k)) idx.
+Definition iins (e : ientry) (idx : list ientry) : list ientry := e :: idx.
+Definition idel (e : ientry) (idx : list ientry) : list ientry := filter (fun x => negb (ientry_eqb e x)) idx.
+
+Definition apply_idx (ci : nat) (t0 : table) (e : conflict_entry) (idx : list ientry) : list ientry :=
+  match e with
+  | (k, (_, _, th)) =>
+      match get k t0, th with
+      | None, Some r => iins (ival ci r, k) idx
+      | Some o, None => idel (ival ci o, k) idx
+      | Some o, Some r => iins (ival ci r, k) (idel (ival ci o, k) idx)
+      | None, None => idx
+      end
+  end.
+
+Definition resolve_idx (ci : nat) (t0 : table) (conf : list conflict_entry) (idx : list ientry) : list ientry :=
+  fold_right (apply_idx ci t0) idx conf.
+
+(* the index built from a table, and a lookup through an index (keys whose entry has value v) *)
+Definition build_idx (ci : nat) (t : table) : list ientry :=
+  flat_map (fun k => match get k t with Some r => [(ival ci r, k)] | None => [] end) (nodup N.eq_dec (keys t)).
+Definition lookup_idx (v : cell) (idx : list ientry) : list N :=
+  map snd (filter (fun e => cell_eqb (fst e) v) idx).
